@@ -23,6 +23,9 @@ OpSpace ==
   \cup (IF "interrupt" \in Kinds /\ Room(1) THEN {Op("interrupt", q, 0, 0, Z) : q \in 1..Len(procs)} ELSE {})
   \cup (IF "interruptn" \in Kinds /\ Room(1) THEN {Op("interrupt", q, 1, 0, Z) : q \in 1..Len(procs)} ELSE {})
   \cup (IF "cond" \in Kinds /\ Room(1) THEN {Op("cond", a, 1, 0, s) : a \in {0, 1}, s \in KidSeqs} ELSE {})
+  \* the same event listed twice (ev & ev, overlapping operand lists): counted per listing
+  \cup (IF "conddup" \in Kinds /\ Room(1) THEN {Op("cond", a, 1, 0, <<x, x>>) : a \in {0, 1}, x \in UserEvs}
+                                                \cup {Op("cond", a, 1, 0, <<x, y, x>>) : a \in {0, 1}, x \in UserEvs, y \in UserEvs} ELSE {})
   \cup (IF "condnoprobe" \in Kinds /\ Room(1) THEN {Op("cond", a, 0, 0, s) : a \in {0, 1}, s \in KidSeqs} ELSE {})
   \cup (IF "baddelay" \in Kinds THEN {Op("baddelay", 0, 0, 0, Z)} ELSE {})
   \cup (IF "condforeign" \in Kinds THEN {Op("condforeign", 0, 0, 0, Z)} ELSE {})
